@@ -639,6 +639,11 @@ func c17shellProducers(c *chk.Ctx) {
 			&spec.Proc{Name: "PROD", Kind: spec.KCmd, Cmd: "cat {i:in} > /dev/null; " + pl + " > {os:out}", Outs: []*spec.Out{{Port: "out", Pattern: "sp/payload.txt"}}},
 			&spec.Proc{Name: "CONS", Kind: spec.KCmd, Cmd: "cat {i:in} > {o:out}; sleep 0.4", Outs: []*spec.Out{{Port: "out", Pattern: "copy.txt"}}})
 		s.Conns = append(s.Conns, &spec.Conn{From: "src.out", To: "PROD.in"}, &spec.Conn{From: "PROD.out", To: "CONS.in"})
+		if (i/2)%2 == 1 {
+			// the streaming port carries an extension and gets the default name ({os:out|.txt}, no SetOut)
+			s.Procs[1].Cmd = "cat {i:in} > /dev/null; " + pl + " > {os:out|.txt}"
+			s.Procs[1].Outs = nil
+		}
 		cfg := Cfg{Buf: []int{128, 1}[i%2], Procs: 4, NoHooks: true, SoftSec: 12}
 		desc := map[string]interface{}{"producer": pl, "spec": s, "cfg": cfg}
 		res := execSpec(c, root, s, cfg, nil, false, 0)
